@@ -14,6 +14,8 @@ open _root_.IsoDT.Gen.Templates (timeDesignator dateTypeOrder parserTables)
 /-- Characters that never occur in a time text or inside a zone body. -/
 def Plain (c : Char) : Prop := c ≠ 'Z' ∧ c ≠ '+' ∧ c ≠ '-'
 
+instance (c : Char) : Decidable (Plain c) := by unfold Plain; infer_instance
+
 /-- A zone text: nothing, `Z`, or a sign followed by plain characters. -/
 def ZoneText (z : List Char) : Prop :=
   z = [] ∨ z = ['Z'] ∨ ∃ sg body, z = sg :: body ∧ (sg = '+' ∨ sg = '-') ∧ ∀ c ∈ body, Plain c
